@@ -22,7 +22,8 @@ impl SchemaMut {
 		let mut state = WriteCanonicalFormState {
 			w: ErrorConversionWriter(Rabin::default()),
 			named_type_written: vec![false; self.nodes.len()],
-			unnamed_in_progress: vec![false; self.nodes.len()],
+			unnamed_in_progress: vec![0; self.nodes.len()],
+			n_named_types_written: 1,
 		};
 		state.write_canonical_form(self, SchemaKey::from_idx(0))?;
 		Ok(state.w.0.finish())
@@ -32,21 +33,37 @@ impl SchemaMut {
 struct WriteCanonicalFormState<W> {
 	w: ErrorConversionWriter<W>,
 	named_type_written: Vec<bool>,
-	/// Unnamed nodes (union, array, map) we are currently inside of. Getting
-	/// back to one of them means that the schema contains a cycle that goes
-	/// through no named type, so its canonical form would be infinite.
-	unnamed_in_progress: Vec<bool>,
+	/// For the unnamed nodes (union, array, map) we are currently inside of:
+	/// value of `n_named_types_written` when we last entered them (zero if
+	/// we are not inside of them).
+	///
+	/// Getting back to one of them without having written any new named type
+	/// since we last entered it means that the schema contains a cycle that
+	/// no reference by name will ever break, so its canonical form would be
+	/// infinite. (If we have written a new named type since, then that one
+	/// will only be written by name from now on, so let's allow another round)
+	unnamed_in_progress: Vec<u64>,
+	/// Starts at one so that zero can mean "not in progress" above
+	n_named_types_written: u64,
 }
 
 impl<W: Write> WriteCanonicalFormState<W> {
-	fn enter_unnamed(&mut self, key: SchemaKey) -> Result<(), SchemaError> {
-		if std::mem::replace(&mut self.unnamed_in_progress[key.idx], true) {
+	/// Returns what should be given to `leave_unnamed` once the node is written
+	fn enter_unnamed(&mut self, key: SchemaKey) -> Result<u64, SchemaError> {
+		let previous = std::mem::replace(
+			&mut self.unnamed_in_progress[key.idx],
+			self.n_named_types_written,
+		);
+		if previous >= self.n_named_types_written {
 			Err(SchemaError::new(
 				"Schema contains a cycle that can't be avoided using named references",
 			))
 		} else {
-			Ok(())
+			Ok(previous)
 		}
+	}
+	fn leave_unnamed(&mut self, key: SchemaKey, previous: u64) {
+		self.unnamed_in_progress[key.idx] = previous;
 	}
 
 	/// Manual implementation that strictly copies that of the reference
@@ -68,6 +85,7 @@ impl<W: Write> WriteCanonicalFormState<W> {
 				Ok(match &mut state.named_type_written[key.idx] {
 					b @ false => {
 						*b = true;
+						state.n_named_types_written += 1;
 						true
 					}
 					true => {
@@ -107,7 +125,7 @@ impl<W: Write> WriteCanonicalFormState<W> {
 				self.w.write_str("\"string\"")?;
 			}
 			RegularType::Union(ref union) => {
-				self.enter_unnamed(key)?;
+				let previous = self.enter_unnamed(key)?;
 				self.w.write_char('[')?;
 				for &variant in &union.variants {
 					if !first_time {
@@ -118,21 +136,21 @@ impl<W: Write> WriteCanonicalFormState<W> {
 					self.write_canonical_form(schema, variant)?;
 				}
 				self.w.write_char(']')?;
-				self.unnamed_in_progress[key.idx] = false;
+				self.leave_unnamed(key, previous);
 			}
 			RegularType::Array(ref array) => {
-				self.enter_unnamed(key)?;
+				let previous = self.enter_unnamed(key)?;
 				self.w.write_str("{\"type\":\"array\",\"items\":")?;
 				self.write_canonical_form(schema, array.items)?;
 				self.w.write_char('}')?;
-				self.unnamed_in_progress[key.idx] = false;
+				self.leave_unnamed(key, previous);
 			}
 			RegularType::Map(ref map) => {
-				self.enter_unnamed(key)?;
+				let previous = self.enter_unnamed(key)?;
 				self.w.write_str("{\"type\":\"map\",\"values\":")?;
 				self.write_canonical_form(schema, map.values)?;
 				self.w.write_char('}')?;
-				self.unnamed_in_progress[key.idx] = false;
+				self.leave_unnamed(key, previous);
 			}
 			RegularType::Enum(ref enum_) => {
 				if should_not_write_only_name(&enum_.name, self)? {
@@ -216,7 +234,8 @@ impl SchemaMut {
 		let mut state = WriteCanonicalFormState {
 			w: ErrorConversionWriter(String::new()),
 			named_type_written: vec![false; self.nodes.len()],
-			unnamed_in_progress: vec![false; self.nodes.len()],
+			unnamed_in_progress: vec![0; self.nodes.len()],
+			n_named_types_written: 1,
 		};
 		state.write_canonical_form(self, SchemaKey::from_idx(0))?;
 		Ok(state.w.0)
